@@ -38,7 +38,7 @@ Step ==
   /\ l' = l + 1
   /\ CASE ev.ev = "cfg" ->
             Cfg([root |-> ev.data.root, routes |-> ev.data.routes, integs |-> ev.data.integs,
-                 inhibit |-> ev.data.inhibit, windows |-> ev.data.windows, wait |-> ev.data.wait, maxwait |-> ev.data.maxwait, agc |-> ev.data.agc])
+                 inhibit |-> ev.data.inhibit, windows |-> ev.data.windows, wait |-> ev.data.wait, maxwait |-> ev.data.maxwait, agc |-> ev.data.agc, maint |-> ev.data.maint])
        [] ev.ev = "wait" -> SetWait(ev.data.wait)
        [] ev.ev = "nflog.merge" -> NflogMerge(ev.gk, ev.integ, ev.data.ts, ToSet(ev.firing), ToSet(ev.resolved))
        [] ev.ev = "ingest" -> Ingest(ev.alerts[1].l, Ver(ev.alerts[1]))
